@@ -1223,6 +1223,9 @@ def shortcut_pattern(ctx, f=""):
         x = r.choice(["a", "b", "[ab]", "\\w", ".", "\\n", "\\s", "\\d", "x", "z", "é", "[x-z]"])
         q = r.choice(["*", "+", "?", "{2}", "{1,3}", "*?", "+?", "{0,2}?"])
         y = r.choice(["a", "b", "[ab]", "c", "\\n", "$", "^", "\\w", "(?:a|b)", "b*", "(b)", "1", ".", "[^0-9]", "\\S", "x", "[^a]", "A", "B", "Ab", "[A-B]", "$\\nb", "^a"])
+        if r.random() < 0.15:
+            # a nullable term between the repeat and something that starts like the repeated term
+            y = r.choice(["(?:b|)X", "(?:(?:bc|d)*|c)X", "(?:c?|d)X", "(b*|c)X", "(?:b|c*)X", "(?:^|c)X", "(?:c|$)X", "(c)?X", "(?:c{0,2}|d)X"]).replace("X", x)
         if "i" in f and x.isalpha() and r.random() < 0.4:
             y = x.upper() + r.choice(["", "b", "$"])          # the same letter in the other case
         if "m" in f and r.random() < 0.3:
